@@ -39,8 +39,13 @@
 (* Number  = 1..60 literally; 62, 63 stand for 2^32-2, 2^32-1 (61 is a gap  *)
 (*           so that no false adjacency arises); 0 is "*" in a number set.  *)
 (* Size    = 0..10^9 literally; 2000000001 = 2^32, 2000000002 = 2^63-1.     *)
-(* NumSet  = [uid : BOOLEAN, sr : BOOLEAN, r : Seq(<<lo, hi>>)]             *)
-(*           (sr: the SEARCHRES marker "$"; then r = <<>>).                 *)
+(* NumSet  = [uid : BOOLEAN, sr : BOOLEAN, r : Seq(<<a, b>>)]               *)
+(*           (sr: the SEARCHRES marker "$"; then r = <<>>).  <<a, b>> is    *)
+(*           the range between a and b, ends in either order; the harness   *)
+(*           builds each range in the documented representation of          *)
+(*           imapnum.Range (Start <= Stop, n:* = {n, 0}, * = {0, 0}) and    *)
+(*           keeps the ranges in the order given: a caller may write an     *)
+(*           unsorted or overlapping slice literal.                         *)
 (* Day     = <<set, day, tod, zone>>: set = 1 iff the date is populated,    *)
 (*           calendar day number (days since 1970-01-01) of the time IN ITS *)
 (*           OWN ZONE, seconds into that day, zone offset in minutes.       *)
@@ -80,7 +85,11 @@ MboxMax == 1300       \* modified UTF-7 grows a name at most 3x; 3 * 1300 < LitM
 (* such arguments the property's weak half still applies: the command is    *)
 (* refused, or the argument arrives intact (see Accept).                    *)
 HardStr(s) == HasNul(s) \/ StrLen(s) > LitMax \/ HasBadByte(s)
-HardMbox(s) == HardStr(s) \/ (IsCompressed(s) /\ StrLen(s) > MboxMax)
+(* a mailbox name (or LIST pattern) travels in modified UTF-7: printable ASCII *)
+(* other than "&" represents itself, everything else grows *)
+SelfUtf7(c) == c \in 32..126 /\ c # 38
+HardMbox(s) == \/ HardStr(s)
+               \/ (IsCompressed(s) /\ StrLen(s) > MboxMax /\ ~(s[1] = -2 /\ SelfUtf7(s[2])))
 HardData(s) == HasNul(s)           \* APPEND payload: any size up to the 100 MiB limit
 
 RECURSIVE StrLess(_, _)
